@@ -433,20 +433,20 @@ func child(env hres.Env) *hres.Result {
 		runtime.GC()
 	}
 	res.Coverage = map[string]any{
-		"evaluations":         int(evals),
-		"distinct_nontrivial": distinct,
-		"rule":                "every (system, programs, interleaving at section granularity, position of one failing attempt) of the families below; after every attempt its logged event is compared with what the attempt did; distinct = distinct final reference states per family",
-		"samples":             samples,
-		"families":            per,
-		"exhaustive":          exhaustive,
-		"divergences":         int(divergences),
-		"events_judged":       tot.events,
-		"aborted_attempts_judged":          tot.aborted,
-		"logged_reads_judged":              tot.reads,
+		"evaluations":                       int(evals),
+		"distinct_nontrivial":               distinct,
+		"rule":                              "every (system, programs, interleaving at section granularity, position of one failing attempt) of the families below; after every attempt its logged event is compared with what the attempt did; distinct = distinct final reference states per family",
+		"samples":                           samples,
+		"families":                          per,
+		"exhaustive":                        exhaustive,
+		"divergences":                       int(divergences),
+		"events_judged":                     tot.events,
+		"aborted_attempts_judged":           tot.aborted,
+		"logged_reads_judged":               tot.reads,
 		"reads_of_another_archetypes_value": tot.crossReads,
-		"old_value_hints_judged":           tot.hints,
-		"discarded_env":                    discards,
-		"env_aborts_accepted":              tot.envAborts,
+		"old_value_hints_judged":            tot.hints,
+		"discarded_env":                     discards,
+		"env_aborts_accepted":               tot.envAborts,
 	}
 	_ = strings.Join
 	return res
